@@ -58,8 +58,15 @@ func c07Fetcher(epochNum uint64, oas linkedlog.OffsetAndSizeAndSlot) (*ipldbindc
 	return c07TxNode(e, i), nil
 }
 
-func c07Build(base string, e, count int) (string, error) {
-	dir := filepath.Join(base, fmt.Sprintf("e%d-c%d", e, count))
+// c07Layouts: how the address's entries of one epoch are spread over linked-log records. The writer starts a
+// new record for an address whenever its pending entries are flushed (a full batch, or the periodic flush of
+// all pending addresses); the harness forces that boundary with the writer's own flushAccum.
+//
+//	0 = one record; 1 = one record per entry; 2 = a record boundary after the second entry
+const c07Layouts = 3
+
+func c07Build(base string, e, count, layout int) (string, error) {
+	dir := filepath.Join(base, fmt.Sprintf("e%d-c%d-l%d", e, count, layout))
 	os.MkdirAll(filepath.Join(dir, "tmp"), 0o755)
 	w, err := NewGsfaWriter(filepath.Join(dir, "idx"), indexmeta.Meta{}, c07EpochNums[e], c06Root, indexes.NetworkMainnet, filepath.Join(dir, "tmp"))
 	if err != nil {
@@ -72,6 +79,11 @@ func c07Build(base string, e, count int) (string, error) {
 		}
 		if err := w.Push(c07Offset(e, i), 100, c07Slot(e, i), pks, true, true, false); err != nil {
 			return "", err
+		}
+		if layout == 1 || (layout == 2 && i == 1) {
+			if err := w.flushAccum(w.accum); err != nil {
+				return "", err
+			}
 		}
 	}
 	if err := w.Close(); err != nil {
@@ -92,15 +104,17 @@ func TestVerif_C07_Reader(t *testing.T) {
 	defer os.RemoveAll(c06Base())
 	R.Rule = "reader level: count vector (entries of the address in each of 3 epochs, 0..4 each: all 125) x non-empty subset of loaded epochs x limit in 1..total+1 x before in history+{none,unknown} x until likewise, against slice arithmetic on the concatenated newest-first history; slot variant: every (before, until) pair over the distinct slots +-1; handler level: JSON response order under every iteration order of the per-epoch result map; non-trivial = query whose expected result is a proper, non-empty sub-run of the history"
 	// one index per (epoch, count)
-	var dirs [c07Epochs][c07MaxCount + 1]string
-	for e := 0; e < c07Epochs; e++ {
-		for c := 0; c <= c07MaxCount; c++ {
-			d, err := c07Build(base, e, c)
-			if err != nil {
-				R.Internal("cannot build gsfa index e=%d c=%d: %v", e, c, err)
-				return
+	var dirs [c07Layouts][c07Epochs][c07MaxCount + 1]string
+	for l := 0; l < c07Layouts; l++ {
+		for e := 0; e < c07Epochs; e++ {
+			for c := 0; c <= c07MaxCount; c++ {
+				d, err := c07Build(base, e, c, l)
+				if err != nil {
+					R.Internal("cannot build gsfa index e=%d c=%d layout=%d: %v", e, c, l, err)
+					return
+				}
+				dirs[l][e][c] = d
 			}
-			dirs[e][c] = d
 		}
 	}
 	ctx := context.Background()
@@ -119,9 +133,21 @@ func TestVerif_C07_Reader(t *testing.T) {
 	}
 	R.Bounds["epochs"] = c07Epochs
 	R.Bounds["max_entries_per_epoch"] = maxCount
-	dims := []int{maxCount + 1, maxCount + 1, maxCount + 1}
-	explore.Product(dims, func(cv []int) bool {
+	R.Bounds["record_layouts"] = "one record per epoch; one record per entry; a record boundary after the second entry"
+	dims := []int{c07Layouts, maxCount + 1, maxCount + 1, maxCount + 1}
+	explore.Product(dims, func(lcv []int) bool {
+		layout, cv := lcv[0], lcv[1:]
 		for mask := 1; mask < 1<<c07Epochs; mask++ {
+			// a layout that changes nothing for the loaded epochs is the same configuration as layout 0
+			most := 0
+			for e := 0; e < c07Epochs; e++ {
+				if mask&(1<<e) != 0 && cv[e] > most {
+					most = cv[e]
+				}
+			}
+			if (layout == 1 && most < 2) || (layout == 2 && most < 3) {
+				continue
+			}
 			mine := vkit.Mine(caseIdx)
 			caseIdx++
 			if !mine {
@@ -137,7 +163,7 @@ func TestVerif_C07_Reader(t *testing.T) {
 				if mask&(1<<e) == 0 {
 					continue
 				}
-				r, err := NewGsfaReader(dirs[e][cv[e]])
+				r, err := NewGsfaReader(dirs[layout][e][cv[e]])
 				if err != nil {
 					R.Internal("open: %v", err)
 					return false
@@ -209,7 +235,7 @@ func TestVerif_C07_Reader(t *testing.T) {
 							defer func() { pan = recover() }()
 							got, gerr = multi.GetBeforeUntil(ctx, c06A, limit, before, until, c07Fetcher)
 						}()
-						q := map[string]interface{}{"variant": "reader", "counts": cv, "loaded_mask": mask, "limit": limit, "before_index": b, "until_index": u}
+						q := map[string]interface{}{"variant": "reader", "layout": layout, "counts": cv, "loaded_mask": mask, "limit": limit, "before_index": b, "until_index": u}
 						if pan != nil {
 							R.Case(true, "")
 							R.Violation("C07|panic|GetBeforeUntil", fmt.Sprintf("GetBeforeUntil panicked: %v (%v)", pan, q), q)
@@ -274,7 +300,7 @@ func TestVerif_C07_Reader(t *testing.T) {
 							defer func() { pan = recover() }()
 							got, gerr = multi.GetBeforeUntilSlot(ctx, c06A, limit, before, until, c07Fetcher)
 						}()
-						q := map[string]interface{}{"variant": "reader-slot", "counts": cv, "loaded_mask": mask, "limit": limit, "before_slot": before, "until_slot": until}
+						q := map[string]interface{}{"variant": "reader-slot", "layout": layout, "counts": cv, "loaded_mask": mask, "limit": limit, "before_slot": before, "until_slot": until}
 						if pan != nil {
 							R.Violation("C07|panic|GetBeforeUntilSlot", fmt.Sprintf("GetBeforeUntilSlot panicked: %v", pan), q)
 							continue
@@ -315,7 +341,7 @@ func TestVerif_C07_Reader(t *testing.T) {
 			R.Transitions = R.Evaluations // every query is one step executed on the real readers
 			R.TracesValidated = R.Evaluations
 			if caseIdx%97 == 0 {
-				R.Sample(map[string]interface{}{"counts": append([]int{}, cv...), "loaded_mask": mask, "history_len": total})
+				R.Sample(map[string]interface{}{"layout": layout, "counts": append([]int{}, cv...), "loaded_mask": mask, "history_len": total})
 			}
 			for _, r := range readers {
 				r.Close()
